@@ -139,10 +139,10 @@ class DataCollection:
 
     def stop(self):
         self.logger.info(f"Stopping collection: {self.name} -> {self.save_path}")
-        # Check if we are currently writing some data
-        if self.write_to_disk.is_set():
-            while not self.write_finished.wait(0.250):
-                pass
+        # Wait until the write thread has consumed any staged buffers. It
+        # clears write_to_disk as the last step of a write cycle.
+        while self.write_to_disk.is_set():
+            self.write_finished.wait(0.250)
 
         self.write_to_disk.clear()
         self.write_finished.clear()
@@ -234,8 +234,12 @@ class DataCollection:
                 if self.write_to_disk.wait(0.5):
                     for ds in self.datasets:
                         ds.write()
-                    self.write_to_disk.clear()
+                    # Signal completion *before* accepting the next request.
+                    # trigger_write() only runs while write_to_disk is clear,
+                    # so a late set() can no longer mark the next staged
+                    # buffer as finished and let stop() discard it.
                     self.write_finished.set()
+                    self.write_to_disk.clear()
         except KeyboardInterrupt:
             pass
         finally:
@@ -246,5 +250,5 @@ class DataCollection:
         if self.write_to_disk.wait(0.5):
             for ds in self.datasets:
                 ds.write()
-            self.write_to_disk.clear()
             self.write_finished.set()
+            self.write_to_disk.clear()
